@@ -19,3 +19,10 @@ Print Assumptions C15_fail_atomic.
 Theorem C15_empty_cache_ok : forall (V : Type) (f : nat -> option V) m, 1 <= m -> Inv V f {| items := nil; maxsize := m |}.
 Proof. exact inv_empty. Qed.
 Print Assumptions C15_empty_cache_ok.
+
+(* T-GEN: no _divisions/_meta/_layer/_task/_lower/npartitions method of the current source reads a process-global mutable
+   container without the recompute fallback of the cached-call pattern *)
+From DX Require Import GeneratedClassTable ClassTableChecks ClassTableState.
+Theorem C15_state_free_table : state_free_b = true.
+Proof. exact state_free_table. Qed.
+Print Assumptions C15_state_free_table.
